@@ -119,10 +119,7 @@ package pubsub
 //@      (forall t1 string, t2 string :: t1 in gs.mesh && t2 in gs.mesh && t1 != t2 ==> gs.mesh[t1] != gs.mesh[t2]) &&
 //@      (forall t string, u string :: t in gs.mesh && u in gs.fanout ==> gs.mesh[t] != gs.fanout[u])
 
-//@ func (*peerScore).AddPenalty
-//@   trusted behaviour-penalty counter update of that one peer; specified under C10
-//@   modifies scoreEpoch
-//@   ensures only-that-peer: forall q string :: q != p ==> scoreEpoch[q] == old(scoreEpoch[q])
+// (*peerScore).AddPenalty is specified in contracts_score_verif.go
 
 //@ spec fn ctlTopic(t *string) string = ite(t != nil, deref(t), "")
 //@ spec fn statedBackoff(pr *pb.ControlPrune) int = ite(pr != nil && pr.Backoff != nil, deref(pr.Backoff), 0)
